@@ -6,7 +6,7 @@
 #include "ref.h"
 #include "cut.h"
 
-static const uint8_t A[] = { 'a', '=', '&', '%', '+', '1', 0, 'u' };
+static const uint8_t A[] = { 'a', '=', '&', '%', '+', '0', 0, 'u' };   /* the digit is 0 so that %00 and %u0000 (encoded NUL) can be spelled */
 static uint8_t cur[16]; static int curlen; static uint32_t curmask; static int curcfg;
 static char descbuf[300];
 static const char *describe(void) {
@@ -162,7 +162,7 @@ static int worker(int argc, char **argv) {
         hx_cfgspec cs; hx_cfgspec_default(&cs); htp_cfg_t *cfg = hx_cfg_get(&cs);
         htp_decoder_cfg_t *d = &cfg->decoder_cfgs[HTP_DECODER_URLENCODED];
         QR = (ref_dcfg) { d->url_encoding_invalid_handling, d->plusspace_decode, d->u_encoding_decode, d->nul_raw_terminates, d->nul_encoded_terminates, 0, 0, 0, 0, 0, d->bestfit_map, d->bestfit_replacement_byte };
-        static const uint8_t B[] = { 'a', '=', '&', '%', '+', '1' };
+        static const uint8_t B[] = { 'a', '=', '&', '%', '+', '0' };
         for (int len = 0; len <= 5; len++) {
             int idx[8] = { 0 };
             for (;;) {
